@@ -25,6 +25,8 @@ THEOREMS = [
     "bc_getRandom_zero_weight_witness",
     # (i)/(ii) algebraic core on the segment abstraction
     "rawMult_eq",
+    "codeMult_eq_abstraction",
+    "codeMult_zero_of_abandoned",
     "rvb_detailed_balance",
     "occupied_of_legal",
     "acceptProb_zero_of_inner_zero",
@@ -42,7 +44,10 @@ THEOREMS = [
     "ex_isRvbMove",
 ]
 
-RULE = ("helpers: remove_doubles on all sorted lists over {0,1,2} up to length 6 + random sorted/unsorted lists; "
+RULE = ("rvb-updates: Ising samplers (frustrated triangle, triangle with unequal dyadic |J|, ring with one flipped bond, multi-edges, bow-tie with h != 0, random graphs, "
+        "underflow-prone low-temperature triangle, weak transverse field), thermalised, one proposed RVB update per case with the recorded draws and the traced region; "
+        "non-trivial = accepted and configuration changed, or rejected with p > 0; every proposal with p < EPSILON is re-run with the accept word forced to 0; "
+        "every 5th step k = 2..4 updates per sweep are compared with k single updates. helpers: remove_doubles on all sorted lists over {0,1,2} up to length 6 + random sorted/unsorted lists; "
         "find_overlapping_starts exhaustively for cutoff <= 5 (all position sets x p_start x p_end) + random cutoffs up to 40; "
         "calculate_mult on dyadic weight lists (k/8) with n in 0..5 incl. equal totals; contiguous_bits on every run length 0..64 + random words; "
         "BondContainer on random insert/remove/clear/contains/get_weight/get_random scripts over 7 keys with zero weights and draws 0, tiny, near-total, random. "
